@@ -419,8 +419,8 @@ def step (w : World) : Op → World × Out
        -- default `Clone::clone_from`: `*self = source.clone()` — clone first, then the old value is dropped
        let (res, s) := (do
           let (c, _) ← VM.onVec src (clone X)
-          dropVec X
-          VM.setV c) { sys := w.sys, v := v }
+          -- an assignment stores the new value also when dropping the old one unwinds
+          VM.guarded (dropVec X) (VM.setV c)) { sys := w.sys, v := v }
        let w' := { w with sys := s.sys }
        (match res with
         | .ok _ => (w'.set r (.vec s.v), .ok)
